@@ -3,7 +3,7 @@
    including the cursor conventions after blocks.  The precedence table is the
    one the translator regenerates from parser/precedences.go (gen/Tables.v). *)
 From Coq Require Import String.
-From Plush Require Import model.Bytes model.Lexer model.Ast model.Conc gen.Tables.
+From Plush Require Import model.Bytes model.Lexer model.Ast model.Conc gen.PrecTables.
 Notation length := List.length (only parsing).
 Open Scope N_scope.
 
